@@ -57,8 +57,10 @@ Emit(id, kind, fault, segs, must) == PrintT("S|" \o ToJson([id |-> id, steps |->
 Cuts(a, b) == {a, a + 1, b - 1} \cup {a + Pow2(k) : k \in {x \in 0..17 : a + Pow2(x) < b}}
 Init == done = FALSE
 Next == /\ ~done /\ done' = TRUE
-        /\ \A bi \in 1..3 :
-             LET m == IF bi = 1 THEN Base(1, 2, FALSE) ELSE IF bi = 2 THEN Base(5, 1, TRUE) ELSE Base(0, 0, FALSE)
+        /\ \A bi \in 1..5 :
+             LET m == IF bi = 1 THEN Base(1, 2, FALSE) ELSE IF bi = 2 THEN Base(5, 1, TRUE) ELSE IF bi = 3 THEN Base(0, 0, FALSE)
+                      ELSE IF bi = 4 THEN [Base(1, 2, FALSE) EXCEPT !.groups = <<>>]                       \* no tile groups: the file ends with the unknown word
+                      ELSE [Base(0, 1, FALSE) EXCEPT !.groups = <<>>, !.sources = <<>>, !.mappings = <<>>]    \* the smallest non-empty map
                  parts == MapParts(m, <<0,0,0,0>>, <<1,0,0,0>>)
                  total == SegsLen(Segs(parts)) IN
              /\ Assert(FlattenSegs(Segs(parts)) = FlattenSegs(EncodeWith(m, <<0,0,0,0>>, <<1,0,0,0>>, <<>>)), "the parts view is the MapFile encoding")
